@@ -229,6 +229,11 @@ def run(ctx):
         ctx.violate("bridge_batch:" + "+".join(sorted(names)), f"Bridge.recv_events on drained batch {batches[i-1]}: {sorted(names)}; observed {bres[i-1]}",
                     {"batch": batches[i - 1], "observed": bres[i - 1]}, clause="+".join(sorted(names)))
     ctx.coverage["bridge_batches"] = len(batches)
+    # ---- 2c. the shutdown handshake of the run (spec/Session.tla replayed into the real Bridge.__init__ / Bridge.shutdown): every
+    # registered executor is told to stop, re-told when the message is lost, and waited for
+    from .c06 import SHUTDOWN_ACTIONS, session_part
+    sess = session_part(ctx, only_actions=SHUTDOWN_ACTIONS)
+    ctx.coverage["session_behaviours_replayed"] = sess["replayed"]
     # ---- 3. teardown of the shm store itself (Manager.atexit), bound through spec/Shm.tla's AtExit action (shared engine of C08/C09)
     from ..shm_engine import report as shm_report
     shm_cov_before = dict(ctx.coverage)
